@@ -14,6 +14,7 @@ import (
 	"fmt"
 	"io"
 	"log/slog"
+	"net"
 	"os"
 	"reflect"
 	"runtime"
@@ -243,6 +244,83 @@ func verifC11Run(key, ver int16, corr int32, seed uint64) (out string) {
 	return fmt.Sprintf("reply hdr=%d corr=%d | path=%s decode=%s ver=%s len=%d", hdr, gotCorr, rep.path, dec, usedVer, len(p))
 }
 
+// verifC11Pipe: ONE client connection into the real broker.Server connection loop; one generated request for every
+// advertised (key, version) is written back to back (pipelined) in the given chunking (0 = a single Write of all
+// frames, 1 = one Write per frame, other = seeded chunk sizes that ignore frame boundaries); the client must read
+// exactly one reply per request, in order, each carrying its request's correlation id and decoding at its version.
+func verifC11Pipe(seed uint64, mode uint64) string {
+	type fr struct {
+		key, ver int16
+		corr     int32
+	}
+	rng := &protocol.VerifRng{S: seed}
+	var frames []fr
+	var stream []byte
+	var bounds []int
+	corr := int32(1000)
+	for _, e := range generateApiVersions() {
+		if e.MinVersion < 0 {
+			continue
+		}
+		for v := e.MinVersion; v <= e.MaxVersion; v++ {
+			req := protocol.VerifFillRequest(e.ApiKey, v, rng)
+			verifC11Fixup(req, rng)
+			corr++
+			stream = append(stream, kmsg.NewRequestFormatter(kmsg.FormatterClientID("verif-c11p")).AppendRequest(nil, req, corr)...)
+			bounds = append(bounds, len(stream))
+			frames = append(frames, fr{e.ApiKey, v, corr})
+		}
+	}
+	srv := &broker.Server{Handler: verifC11Handler()}
+	client, server := net.Pipe()
+	go broker.VerifServeConn(srv, server)
+	go func() {
+		s, pos, i := mode, 0, 0
+		for pos < len(stream) {
+			n := len(stream) - pos
+			switch mode {
+			case 0:
+			case 1:
+				n = bounds[i] - pos
+				i++
+			default:
+				s = s*6364136223846793005 + 1442695040888963407
+				n = 1 + int((s>>33)%700)
+				if n > len(stream)-pos {
+					n = len(stream) - pos
+				}
+			}
+			if _, err := client.Write(stream[pos : pos+n]); err != nil {
+				return
+			}
+			pos += n
+		}
+	}()
+	defer client.Close()
+	defer server.Close()
+	for i, f := range frames {
+		_ = client.SetReadDeadline(time.Now().Add(3 * time.Second))
+		rf, err := protocol.ReadFrame(client)
+		if err != nil {
+			return fmt.Sprintf("pipe mismatch no-reply at=%d of=%d key=%d ver=%d (%v)", i, len(frames), f.key, f.ver, err)
+		}
+		p := rf.Payload
+		if len(p) < 4 || int32(binary.BigEndian.Uint32(p[:4])) != f.corr {
+			return fmt.Sprintf("pipe mismatch wrong-correlation-id at=%d of=%d key=%d ver=%d", i, len(frames), f.key, f.ver)
+		}
+		resp := kmsg.ResponseForKey(f.key)
+		resp.SetVersion(f.ver)
+		off := 4
+		if resp.IsFlexible() && f.key != protocol.APIKeyApiVersion {
+			off = 5
+		}
+		if len(p) < off || resp.ReadFrom(p[off:]) != nil || !bytes.Equal(resp.AppendTo(nil), p[off:]) {
+			return fmt.Sprintf("pipe mismatch reply-not-decodable at=%d of=%d key=%d ver=%d", i, len(frames), f.key, f.ver)
+		}
+	}
+	return fmt.Sprintf("pipe ok replies=%d bytes=%d", len(frames), len(stream))
+}
+
 // verifC11Conc: GOMAXPROCS goroutines send valid generated requests of read-mostly APIs, at versions on both
 // sides of the flexible boundaries, through ParseRequest and ONE shared handler (as connections of a real
 // broker do); every reply must decode exactly at its own request's version and carry its own correlation id.
@@ -381,6 +459,12 @@ func verifC11Conc(seed uint64, ms int) string {
 func init() {
 	if os.Getenv("VERIF_HARNESS") != "C11" {
 		return
+	}
+	if len(os.Args) > 3 && os.Args[1] == "pipe" {
+		seed, _ := strconv.ParseUint(os.Args[2], 10, 64)
+		mode, _ := strconv.ParseUint(os.Args[3], 10, 64)
+		fmt.Println(verifC11Pipe(seed, mode))
+		os.Exit(0)
 	}
 	if len(os.Args) > 3 && os.Args[1] == "conc" {
 		seed, _ := strconv.ParseUint(os.Args[2], 10, 64)
